@@ -9,7 +9,7 @@ CLAIMED = {
    text="Seeded search over timer/I-O histories on the rewritten sonic sources running on a simulated kernel with a virtual clock: "
         "every callback is checked at entry against a reference model (never early by exact virtual time, at most once, never after a Cancel/Close that returned nil, "
         "Scheduled() equals 'callback due', a closed timer stays closed), plus bounded liveness at quiescence. Batches with several expired timerfds and sockets, "
-        "permuted/truncated batches and EINTR are injected. Sampling, not proof.",
+        "permuted/truncated batches and EINTR are injected; handlers cancel, close and re-schedule themselves and others, also with delay 0 nested up to 100 levels deep before stopping the timer. Sampling, not proof.",
    note="Trusts the stub timerfd/epoll semantics (notes/kernel_facts.txt: re-arm clears the expiration count, one-shot relative timers). The virtual clock never jumps backwards."),
 }
 
@@ -19,23 +19,23 @@ CLAIMED.update({
    text="Seeded search over mixes of every object kind sharing one IO (dialed/accepted conns, AsyncAdapter, FIFO ends, regular file, listener, packet conn, multicast peer, a conn over a connected datagram socket) with an operation ledger: "
         "every completion callback is counted at entry (never twice, never after Close returned), Cancel must complete each deferred operation once with ErrCancelled, and at quiescence "
         "(faults off, peers satisfy every pending operation, loop polled) every operation on a never-closed object must have completed. Handlers cancel/close/re-arm themselves and other objects, "
-        "including ones later in the same epoll batch; batches are composed, permuted and truncated by the tape; peers send, half-close, close, reset and hang up; a datagram socket is announced readable with nothing to read; a connected datagram socket learns of a closed remote port as an asynchronous error (EPOLLERR alone); handlers may do two things; IO.Dispatched must be 0 after every poll. Directed: all ordered pairs of 7 object kinds x 3 cross-object actions x 2 batch orders.",
+        "including ones later in the same epoll batch; batches are composed, permuted and truncated by the tape; peers send, half-close, close, reset and hang up; a datagram socket is announced readable with nothing to read; a connected datagram socket learns of a closed remote port as an asynchronous error (EPOLLERR alone); handlers may do two things, among them taking a queued connection from a listener with the blocking Accept; IO.Dispatched must be 0 after every poll. Directed: all ordered pairs of 7 object kinds x 3 cross-object actions x 2 batch orders.",
    note="At most one read and one write in flight per object (sonic has one reactor per direction). Stub kernel semantics for epoll/pipe/TCP/UDP are compared with the live kernel by kconf (DESIGN 4.3). Regular files are not started at the dispatch limit while the C14 known finding is open."),
  "C02": dict(
    technique="deterministic simulation: seeded segmentation/partial-transfer search with a position-dependent byte generator",
-   text="Stream objects (dialed, accepted, AsyncAdapter) against raw actor peers, both directions at once; socket buffer capacities drawn down to 1 byte, deliveries segmented, kernel short reads/writes, delays, peer FIN/close/RST in the middle of *All operations. "
+   text="Stream objects (dialed, accepted, AsyncAdapter) against raw actor peers, both directions at once; socket buffer capacities drawn down to 1 byte, deliveries segmented, kernel short reads/writes, delays, peer FIN/close/RST in the middle of *All operations, Cancel of operations in flight (a cancelled operation reports exactly what it moved and the next one resumes from there). "
         "Oracle: per-direction offset ledger with a position-dependent generator (any slice identifies its own offset): delivered bytes equal what the peer wrote at that offset, counts equal the bytes the stub kernel moved for that operation, "
         "*All success implies the full length, on error n <= bytes moved and - for reads - n == bytes moved (bytes taken out of the stream and not reported are lost); the adapter's reader may hand the last bytes over together with io.EOF and its writer may accept a prefix, no error on a healthy stream, the peer verifies every byte it receives, conservation at quiescence. Second scenario (byte_buffer.go is an anchor): the stream is queued in a sonic.ByteBuffer and moved with WriteTo/AsyncWriteTo and ReadFrom/AsyncReadFrom over the same three connection kinds with kernel buffers of 7 B..64 KiB, so that would-block cuts a transfer and the buffer carries the rest into the next call; what a call reports must be what left (entered) the buffer and the peer must receive the stream exactly once.",
    note="The kernel's per-descriptor byte counters are the independent observer. AsyncAdapter's peer always drains (net.Conn.Write blocks the loop by design)."),
  "C03": dict(
    technique="deterministic simulation: seeded history search with an in-flight ledger, RunPending under a quiescence detector",
-   text="Histories of start/complete/cancel/close/timer arm+disarm/post over mixed objects with registrations that fail (injected epoll_ctl error, descriptor closed underneath) and EINTR in blocking waits. "
+   text="Histories of start/complete/cancel/close/timer arm+disarm (also from a sibling timer's callback in the same poll cycle)/post over mixed objects with registrations that fail (injected epoll_ctl error, descriptor closed underneath) and EINTR in blocking waits. "
         "At every top-level point Pending() and Posted() must equal the ledger; RunPending is called at tape-chosen moments after actors have been scheduled to satisfy everything in flight: returning early is caught by the ledger, "
         "never returning by the world going quiescent with the driver blocked in epoll_wait(-1); PollOne must report n>0 when a handler ran and ErrTimeout when the stub kernel had nothing ready; no wait returns EINTR as an error.",
    note="EINTR is injected only where Linux can deliver it (a wait that would sleep). Posting from posted handlers is exercised under C05."),
  "C14": dict(
    technique="deterministic simulation: chains of immediately completable operations with a nesting counter",
-   text="Chains (up to 10x the limit, hopping between objects) of operations that complete immediately on conns, FIFO ends, regular file, listener with queued connections, packet conn and multicast peer with queued datagrams. "
+   text="Chains (up to 10x the limit, hopping between objects) of operations that complete immediately on conns, FIFO ends, regular file, listener with queued connections, packet conn and multicast peer with queued datagrams; a third of the stream operations are the *All variants under short kernel reads and writes. "
         "The harness's own nesting counter must never exceed MaxCallbackDispatch+1, an operation started at the bound must be deferred and then complete with the data/connection it would have had inline, IO.Dispatched must be 0 whenever the stack is unwound. A third of the random runs are starved chains: the queues run dry, the operation re-issued from inside a completion is deferred and resumes from the poller.",
    note="No Cancel in these workloads. Regular files: open known finding (cannot be deferred through epoll)."),
 })
@@ -43,7 +43,7 @@ CLAIMED["C05"] = dict(
    technique="deterministic simulation: seeded interleaving search with parked goroutines + race detector on the same schedules",
    text="1-4 posting goroutines and the loop goroutine run as scheduler-controlled tasks: every kernel call and every Mutex.Lock/Unlock is a yield point and the tape chooses who continues, "
         "which reaches the append/eventfd-write and drain/run windows. Oracle: every handler exactly once, on the loop task, per-poster FIFO order, Post always returns, the world never goes quiescent "
-        "with a handler un-run (lost wake-up) or a task stuck on the mutex (deadlock, including handlers that post), Pending()/Posted() exact at quiescence, and Pending() read from inside every posted handler (the loop is then in the middle of a batch) within the bounds the ledger gives: Post calls returned/started minus handlers finished, plus loop operations armed. Half of the workers run the same generator "
+        "with a handler un-run (lost wake-up) or a task stuck on the mutex (deadlock, including handlers that post), Pending()/Posted() exact at quiescence, and Pending() read from inside every posted handler (the loop is then in the middle of a batch) within the bounds the ledger gives: Post calls returned/started minus handlers finished, plus loop operations armed; backlogs of up to 5000 handlers queued before one poll. Half of the workers run the same generator "
         "on a race-detector build in which only sonic is instrumented and the baton between tasks is a raw pipe the detector cannot see: a report is a violation with the tape attached.",
    note="The scheduler-aware sync.Mutex shim is backed by a real mutex so lock edges stay visible to the detector; the shim's Read/Write reproduce the acquire/release edges of syscall.Read/Write. checkptr is disabled in the race build (sonic's epoll user-data cast).")
 CLAIMED["C18"] = dict(
@@ -55,13 +55,13 @@ CLAIMED["C18"] = dict(
    note="After a failed handshake the client's end of the TCP connection must be closed (the descriptor census is C13's). A reset during the response makes either outcome legitimate. The transport may hand the end of the response over together with the end of the stream; servers that answer and close at once are a regular case.")
 CLAIMED["C06"] = dict(
    technique="deterministic simulation: generated conforming sessions under seeded fragmentation and segmentation, four read APIs, two transports",
-   text="A simulated server (independent RFC 6455 encoder) sends message sequences with sizes spanning the 7/16/64-bit encodings up to the per-run maximum, fragmented at tape-chosen points with ping/pong between fragments; "
+   text="A simulated server (independent RFC 6455 encoder) sends message sequences with sizes spanning the 7/16/64-bit encodings up to the per-run maximum (which the reader may raise while an asynchronous read is pending), fragmented at tape-chosen points with ping/pong between fragments; "
         "the byte stream is cut at tape-chosen offsets (directed: one or two cuts walking through every offset of short sessions), also together with the handshake response, and further segmented by the stub kernel. "
         "Transports: production stack (real Handshake, stub net.Conn, AsyncAdapter, stub TCP) and a scripted in-memory sonic.Stream with partial/deferred completions. Oracle: the delivered (type, length, payload) sequence equals the sent one for NextMessage, AsyncNextMessage, NextFrame and AsyncNextFrame (frames reassembled by the harness); control frames surface in order; PayloadLength equals len(Payload).",
    note="Equality with the sent sequence under every API implies the differential clause. Sizes above 256 KiB are not generated. Asynchronous reads are also re-issued from inside the completion; in a third of the random runs the peer ends the stream right behind its last frame and the transport may report that end together with the last bytes (as tls.Conn does).")
 CLAIMED["C07"] = dict(
    technique="deterministic simulation of the read path (CodecConn over a scripted transport) with in-transit corruption, differential against a reference decoder; plus exhaustive enumeration of the encoder/decoder product",
-   text="Conforming frame streams are corrupted in transit (bit flips, rewritten length fields incl. 64-bit lengths with the top bit set and max+1, truncation, inserted garbage, pure random prefixes) and delivered under two tape-chosen segmentations (incl. byte-by-byte); a sixth of the frames end within 20 bytes of a size the read buffer has or grows to (4096, 8192, ...); "
+   text="Conforming frame streams are corrupted in transit (bit flips, rewritten length fields incl. 64-bit lengths with the top bit set and max+1, truncation, inserted garbage, pure random prefixes) and delivered under two tape-chosen segmentations (incl. byte-by-byte); a sixth of the frames end within 20 bytes of a size the read buffer has or grows to (4096, 8192, ...); maxima from 0 and 124 to 100000; "
         "an independent reference decoder applied to the post-fault bytes says frame / need-more / too-big for each position and sonic must agree on boundaries and contents, reject over-max declared lengths without buffering for them (source buffer capacity bounded), give the same outcomes under both segmentations and never panic. "
         "Directed run: all 5120 combinations FIN x RSV x opcode x mask x 10 length classes through Encode then Decode must be the identity (exhaustive enumeration, not simulation).",
    note="The decoder does not judge RFC conformance of opcodes/RSV (that is the stream layer, C15). After the first error outcome the run stops (decoder state after an error is unspecified).")
@@ -80,7 +80,7 @@ CLAIMED["C08"] = dict(
    technique="deterministic simulation: seeded histories of peer events and local calls checked against an executable RFC 6455 closing/ping state machine",
    text="Histories (<= 12 events, from every stage) of peer {data, ping, pong, valid close with/without code, close with invalid code / invalid UTF-8 / 1-byte payload, frame with reserved bits, transport EOF, reset} interleaved with local {NextFrame, AsyncNextFrame, NextMessage, AsyncNextMessage, Write, AsyncWrite, WriteFrame, Flush, Close, AsyncClose}, on both transports. "
         "A reference state machine consumes the same history (a frame counts when a read call consumes it) and says which frames must be on the wire: one Pong per Ping consumed while open, same payload, arrival order, ahead of later application frames; none for Pongs or after our Close; exactly one Close echoing the peer's code (1000 if none, 1002 if invalid) or ours; no data frame after it. "
-        "Reads must report end-of-stream after the closing handshake and io.EOF + a 1006 Close frame on unexpected EOF; writes and second closes must be refused; State() must lie in the set of stages the model allows - also while an AsyncClose is still being written (state, refusal of writes and of a second Close are probed before it completes). Transports may report the end of the stream together with the last bytes; on the scripted transport one flush is made to fail once with the transport staying usable, after which the wire is judged as an in-order subsequence of the expected frames, each at most once.",
+        "Reads must report end-of-stream after the closing handshake and io.EOF + a 1006 Close frame on unexpected EOF; writes and second closes must be refused; a message that does not fit the reader's buffer while our Close is out is an error and adds no second Close; State() must lie in the set of stages the model allows - also while an AsyncClose is still being written (state, refusal of writes and of a second Close are probed before it completes). Transports may report the end of the stream together with the last bytes; on the scripted transport one flush is made to fail once with the transport staying usable, after which the wire is judged as an in-order subsequence of the expected frames, each at most once.",
    note="Peer frames are single-frame messages so that each read call consumes a known number of frames. After a connection reset nothing is judged except that calls return and the wire stays a prefix of what the history called for. Transport EOF is a half-close.")
 CLAIMED["C17"] = dict(
    technique="deterministic simulation: seeded interleavings of peer events, application calls and poll cycles on the production transport stack, callback ledger + wire parser",
@@ -96,7 +96,7 @@ CLAIMED["C19"] = dict(
    note="Hostile prefixes are either above the 1 GiB limit or small: a prefix just below the limit would make the codec legitimately reserve up to 1 GiB and is not generated in this sandbox. Half of the blocking-write runs use small send buffers: an item that hits would-block stays queued in the destination buffer, is not re-submitted, and must leave whole and once in front of the next item. Reads and writes are also chained from inside completion handlers.")
 CLAIMED["C12"] = dict(
    technique="deterministic simulation: seeded traffic/membership histories on a stub kernel with an interface table and Linux multicast filtering, abstract membership model as oracle",
-   text="Packet conns and multicast peers (bind forms: empty host, port 0, interface address, group address; several peers on one port) with sender actors on different simulated interfaces and addresses; datagram sizes 1..65507, buffers shorter and longer than the datagram, "
+   text="Packet conns and multicast peers (bind forms: empty host, port 0, interface address, group address; several peers on one port) with sender actors on different simulated interfaces and addresses; datagram sizes 1..65507, buffers shorter and longer than the datagram, destination address objects allocated per write or re-pointed in place, "
         "loss, duplication, reordering, delay, small receive queues, EAGAIN/ENOBUFS on send; histories of Join/JoinOn/JoinSource/Leave/LeaveSource/BlockSource/UnblockSource/SetLoop/SetTTL/SetAll/SetOutboundIPv4/SetAsyncReadBuffer interleaved with traffic and pending reads, each option call failed once by injection. "
         "Oracle: one read completion per datagram the kernel queued, with exactly its bytes, n=min(len), the sender's IP and port; one emitted datagram per write with exactly the caller's bytes and destination (observed in the kernel); the datagrams the kernel queued for each socket equal what an abstract membership model (joined, not left, source admitted, not blocked, IP_MULTICAST_ALL) predicts; a re-designated read buffer receives the datagram; after every call each getter equals the kernel's option/name.",
    note="The delivery rule of the stub follows net/ipv4/igmp.c (ip_mc_sf_allow, ip_check_mc) for the generated histories: one membership per group per socket, membership changes only while no datagram is in flight, with several sources per source-specific membership, on any interface (the delivery rule was compared with the live kernel on two real interfaces: kconf). Reads are re-armed from inside the completion; a socket is announced readable with nothing queued while a read is pending. Unicast is not sent to a port several sockets share. Open known finding: Loop() getter.")
@@ -105,7 +105,7 @@ CLAIMED["C13"] = dict(
    technique="deterministic simulation with enumerated fault injection: every k-th kernel call of every kind of each constructor is failed; descriptor census by generation; GC injected at chosen instants",
    text="Fault enumeration over 12 constructors (NewIO, NewTimer, Dial tcp/udp, Listen, accept sync+async, NewPacketConn, NewUDPPeer, Open, websocket Handshake and AsyncHandshake, NewMirroredBuffer on the real kernel): the successful build is measured and every k-th call of every kind it makes is failed once (EMFILE at the k-th allocation for every k, realistic errnos otherwise), "
         "plus refused/unreachable/time-out/bind conflict/non-local bind/bad, truncated or wrong-key handshake response/server close or reset mid-handshake. The stub kernel's exact census (number:kind:generation) must be what it was before after a failure, and after Close of a success. Both handshake constructors repeat the whole enumeration on one Stream that has had a complete session before every failing attempt. "
-        "Seeded exploration on top: repeated Close (and Cancel-after-Close, conn-close-after-adapter-close) on every object kind interleaved with creation of other objects so that numbers are reused - any close of a generation the object does not own is flagged; and GC at tape-chosen instants with reads and/or writes deferred after the program dropped every reference (weak pointer to a sentinel captured only by the callbacks), including between the completion of one direction and the other, with the completion required afterwards.",
+        "Seeded exploration on top: repeated Close (and Cancel-after-Close, conn-close-after-adapter-close) on every object kind interleaved with creation of other objects so that numbers are reused - any close of a generation the object does not own is flagged, and a connection dialled after the first Close (it gets the released number) with a read parked on it and no reference kept must survive the repeated Closes and a forced collection and complete once; and GC at tape-chosen instants with reads and/or writes deferred after the program dropped every reference (weak pointer to a sentinel captured only by the callbacks), including between the completion of one direction and the other, with the completion required afterwards.",
    note="Fault points are enumerated over the kernel calls the stub sees, not over Go allocations. Constructors are built with options so that every socket option is a fault point; one scenario reconnects from inside a completion handler (close, dial, deferred read on the reused descriptor number, no reference kept) before the collection. The stub net.Conn models RawConn.Control's descriptor reference (a Close inside the callback blocks, as on the live runtime).")
 CLAIMED["C09"] = dict(
    technique="model conformance over seeded call histories, with simulated readers/writers for the I/O methods (short, zero-byte and failing reads, short and failing writes, deferred completions)",
@@ -114,7 +114,7 @@ CLAIMED["C09"] = dict(
    note="Honest scope: apart from the I/O methods (simulated transports with faults and deferred completions) this is sequential model conformance, not schedule exploration. Reserve is exercised up to 1 MiB. Slot arguments are always slots the buffer handed out. While an asynchronous transfer is in flight only getters are called. UnreadByte is not in the property's list and not exercised.")
 CLAIMED["C20"] = dict(
    technique="deterministic simulation of a sequenced multicast feed (loss, duplication, reordering, delay, retransmission after a virtual time-out) driving the park/pop/discard pipeline, map model as oracle",
-   text="1-3 channels of packets (seq, payload=g(channel, seq)) published over simulated multicast with loss, duplication, reordering and delay; a retransmission actor fills gaps later; the receiver parks every out-of-order packet in a ByteBuffer save area indexed by a SlotSequencer with a slot limit of 2, 4, 8, 32 or any number in 1..60 and a byte limit of 256 B..64 KiB (1 in 4 runs: bare SlotOffsetter), pops and discards when the gap closes, and expires tape-chosen parked packets in any order; slot and byte capacities are drawn small, and a long-lived gap keeps one sequencer non-empty while others drain repeatedly. "
+   text="1-3 channels of packets (seq, payload=g(channel, seq)) published over simulated multicast with loss, duplication, reordering and delay; a retransmission actor fills gaps later; the receiver parks every out-of-order packet in a ByteBuffer save area indexed by a SlotSequencer with a slot limit of 2, 4, 8, 32 or any number in 1..60 and a byte limit of 256 B..64 KiB or any number in 64..6000 (1 in 4 runs: bare SlotOffsetter), pops and discards when the gap closes, and expires tape-chosen parked packets in any order; slot and byte capacities are drawn small, and a long-lived gap keeps one sequencer non-empty while others drain repeatedly. "
         "Oracle after every call: Pop succeeds iff parked; the returned slot addresses exactly the bytes saved under that number before its Discard; afterwards Saved() is the concatenation of the remaining parked packets in save order; duplicates return (false, nil) and change nothing; capacity overruns return an error and change nothing; Bytes()/Size() equal the model; the application receives every sequence number once, in order, intact.",
    note="A Push refused with ErrNoSpaceLeftForSlot below the byte capacity is tolerated only when the bytes pushed since the sequencer was last empty reach maxBytes (the offsetter's index space), and counted by a probe.")
 CLAIMED["C10"] = dict(
